@@ -32,12 +32,14 @@ type Faults struct {
 
 // Rule: while the source is in epoch Epoch, a request for Height fails ("fail"), or its answer is
 // computed at once and handed over only when the node has stored UntilStores blocks ("hold";
-// at most 3 s).
+// at most 3 s), or is the (valid) block Height+1 ("wrong-num").
 type Rule struct {
 	Height      uint64 `json:"height"`
 	Epoch       int    `json:"epoch"`
 	Action      string `json:"action"`
 	UntilStores int    `json:"until_stores,omitempty"`
+	Times       int    `json:"times,omitempty"` // apply at most this many times (0 = always)
+	used        int
 }
 
 // Trigger says when the source moves to the next epoch's chain.
@@ -180,9 +182,15 @@ func (s *source) BlockByNumber(ctx context.Context, n uint64) (junosync.Committe
 	}
 	fault := ""
 	holdUntil := 0
-	for _, ru := range s.faults.Rules {
-		if ru.Height == n && ru.Epoch == epoch {
+	for ri := range s.faults.Rules {
+		ru := &s.faults.Rules[ri]
+		if ru.Height == n && ru.Epoch == epoch && (ru.Times == 0 || ru.used < ru.Times) {
+			ru.used++
 			switch ru.Action {
+			case "wrong-num":
+				if int(n)+1 < len(chain) {
+					fault = "rule-wrong-num"
+				}
 			case "fail":
 				s.hit("rule:fail")
 				s.mu.Unlock()
@@ -195,7 +203,7 @@ func (s *source) BlockByNumber(ctx context.Context, n uint64) (junosync.Committe
 			}
 		}
 	}
-	if budgetLeft {
+	if budgetLeft && fault == "" {
 		switch {
 		case r.Chance(s.faults.ErrPct, 100):
 			fault = "err"
@@ -205,7 +213,7 @@ func (s *source) BlockByNumber(ctx context.Context, n uint64) (junosync.Committe
 			fault = "wrong-num"
 		}
 	}
-	if fault != "" {
+	if fault != "" && fault != "rule-wrong-num" {
 		s.faulted[key+u64s(n)]++
 		s.hit("fault:" + fault)
 	}
@@ -223,6 +231,9 @@ func (s *source) BlockByNumber(ctx context.Context, n uint64) (junosync.Committe
 		s.hit("corrupt:" + how)
 		valid = false
 		fault = "corrupt:" + how
+	case "rule-wrong-num":
+		b = chain[n+1].Clone()
+		s.hit("rule:wrong-num")
 	case "wrong-num":
 		m := uint64(r.Intn(len(chain)))
 		if m == n {
